@@ -1294,6 +1294,7 @@ namespace
             }
             size_t i  = op.a % markers.size();
             auto   mr = markers[i];
+            s->set_unwind_mode(op.b);
             size_t blocks_before = own_blocks();
             uint64_t up0 = up_calls();
             // everything above the marker is released; older allocations must survive
@@ -2657,6 +2658,8 @@ namespace
                 in_child(names[cls % 4], f.req.size, [&] { s->dealloc(f.p, f.req); return 44; });
                 return;
             }
+            if (s->fam == F_STACK)
+                s->set_unwind_mode(op.a / 3);
             if (s->fam == F_STACK && (s->stale_markers() == 0 || op.c % 2))
             {
                 // the child itself first makes a marker stale with valid calls: marker, allocation(s)
